@@ -484,10 +484,15 @@ def _ego_at(samples, t):
     return tuple(samples[-1]["ego"])
 
 
-def make_plan(seed, run, profile_name):
+def make_plan(seed, run, profile_name, clean=None, force=None):
+    """`clean=True` forces a fault-free run of the profile; `force=[(kind, n), ...]` additionally makes the n-th
+    opportunity of fault `kind` fire (systematic single-fault sweep: every fault kind at every position)."""
     rng = random.Random("worldsim:%d:%d:%s" % (seed, run, profile_name))
     prof = get_profile(profile_name)
-    clean = rng.random() < prof["clean_p"]
+    drawn_clean = rng.random() < prof["clean_p"]
+    clean = drawn_clean if clean is None else bool(clean)
+    forced = set((k, int(n)) for k, n in (force or []))
+    forced_kinds = set(k for k, _ in forced)
     storm = (not clean) and rng.random() < prof["storm_p"]
 
     # which fault kinds are enabled in this run, and at what rate (swarm)
@@ -500,8 +505,17 @@ def make_plan(seed, run, profile_name):
             rates.setdefault(kind, rng.uniform(prof["rate_lo"], prof["rate_hi"]))
             rates[kind] = max(rates[kind], 0.12)
 
+    opportunities = {}
+
     def fire(kind):
+        n = opportunities.get(kind, 0)
+        opportunities[kind] = n + 1
+        if (kind, n) in forced:
+            return True
         return kind in rates and rng.random() < rates[kind]
+
+    def enabled(kind):
+        return kind in rates or kind in forced_kinds
 
     task = _wchoice(rng, prof["tasks"])
     world = _make_world(rng, prof, task)
@@ -548,8 +562,8 @@ def make_plan(seed, run, profile_name):
         rng.shuffle(ticks)  # a perception stack replayed out of order
 
     # clock state
-    offset = int(rng.uniform(-0.4, 0.4) * period) if "skew_offset" in rates else 0
-    drift = rng.uniform(-2e-4, 2e-4) if "drift" in rates else 0.0
+    offset = int(rng.uniform(-0.4, 0.4) * period) if enabled("skew_offset") else 0
+    drift = rng.uniform(-2e-4, 2e-4) if enabled("drift") else 0.0
     jump = 0
 
     messages = []
@@ -753,7 +767,7 @@ def make_plan(seed, run, profile_name):
         note("restart")
         seq += 1
         heapq.heappush(events, (rng.randrange(t_lo, t_hi), seq, "restart", {}))
-    if "analyze" in rates and rng.random() < 0.3:
+    if fire("analyze") or ("analyze" in rates and rng.random() < 0.3):
         seq += 1
         heapq.heappush(events, (rng.randrange(t_lo, t_hi), seq, "analyze", {}))
 
@@ -764,11 +778,11 @@ def make_plan(seed, run, profile_name):
         if kind == "arrive":
             op = {"op": "deliver", "mid": payload["mid"]}
             if payload["copy"] == 1 or fire("crit_change"):
-                if "crit_change" in rates or payload["copy"] == 1:
-                    if rng.random() < 0.6:
+                if enabled("crit_change") or payload["copy"] == 1:
+                    if "crit_change" in forced_kinds or rng.random() < 0.6:
                         op["crit"] = _crit_spec(rng, cfg, scale, rng.random() < prof["narrow_crit_p"])
                         note("crit_change")
-            if "pf_change" in rates and (payload["copy"] == 1 or fire("pf_change")):
+            if (payload["copy"] == 1 and enabled("pf_change")) or fire("pf_change"):
                 op["pf"] = _pf_spec(rng, cfg, factor=rng.choice([0.5, 2.0, 3.0]))
                 note("pf_change")
             ops.append(op)
@@ -779,7 +793,7 @@ def make_plan(seed, run, profile_name):
                 if rng.random() < 0.5:
                     op2["crit"] = _crit_spec(rng, cfg, scale, rng.random() < 0.5)
                 ops.append(op2)
-                if "restart" in rates and rng.random() < 0.15:
+                if enabled("restart") and rng.random() < 0.15:
                     ops.append({"op": "restart"})
                     note("restart")
         elif kind == "scene_query":
@@ -816,7 +830,9 @@ def make_plan(seed, run, profile_name):
         "seed": seed,
         "run": run,
         "profile": profile_name,
-        "clean": clean,
+        "clean": clean and not forced,
+        "forced": sorted([k, n] for k, n in forced),
+        "opportunities": dict(sorted(opportunities.items())),
         "rates": {k: round(v, 4) for k, v in sorted(rates.items())},
         "fired": dict(sorted(fault_log.items())),
         "world": world,
